@@ -74,32 +74,27 @@ impl WaitGroup {
   ///
   /// If the counter is already zero when called, returns immediately.
   pub async fn wait(&self) {
-    // Fast path: Check if already zero.
-    // Acquire load synchronizes with the AcqRel fetch_sub in done().
-    if self.count.load(Ordering::Acquire) == 0 {
-      tracing::trace!("WaitGroup::wait() called when count is already zero");
-      return;
-    }
-
-    #[cfg(any(rzmq_verif, kani))]
-    crate::verif_facade::sched_point("WaitGroup::wait:after-check");
-
-    // Slow path: Wait for notification.
     loop {
-      // Wait until notified. notified() consumes a permit.
-      self.notify_on_zero.notified().await;
+      // Create the `Notified` future *before* reading the count: tokio guarantees that a
+      // `Notified` receives every `notify_waiters()` issued after its creation, even if it has
+      // not been polled yet. Checking first and subscribing afterwards loses the wake-up when
+      // the last `done()` lands in between, and the waiter then sleeps forever at count zero.
+      let notified = self.notify_on_zero.notified();
 
-      // Check count again after notification (spurious wakeup or race check).
+      // Acquire load synchronizes with the AcqRel fetch_sub in done().
       if self.count.load(Ordering::Acquire) == 0 {
-        tracing::trace!("WaitGroup::wait() released after notification");
+        tracing::trace!("WaitGroup::wait() observed count zero");
         return;
       }
-      tracing::trace!("WaitGroup::wait() woke, but count is non-zero; re-waiting");
-      // If count is still non-zero, loop and wait again.
+
+      #[cfg(any(rzmq_verif, kani))]
+      crate::verif_facade::sched_point("WaitGroup::wait:after-check");
+
+      notified.await;
+      tracing::trace!("WaitGroup::wait() woke; re-checking count");
     }
   }
 
-  /// Returns the current count. Primarily for debugging/testing.
   #[allow(dead_code)]
   pub fn get_count(&self) -> usize {
     self.count.load(Ordering::Relaxed)
